@@ -183,14 +183,24 @@ int main() {
             auto prog = frontEnd(src, err);
             if (!prog) out = err;
             else {
+                // echo "01": the shared Program runs with echo off (as multi-shot mode does), the fresh pipelines with echo on;
+                // the echo text is then left out of the comparison
+                bool mixed = a[2] == "01";
+                auto strip = [&](std::string r) {
+                    if (!mixed) return r;
+                    auto b = r.find(" echo=");
+                    auto e = r.find(" tracked=");
+                    if (b != std::string::npos && e != std::string::npos && e > b) r.erase(b, e - b);
+                    return r;
+                };
                 setDraws(a[4]);
                 std::string shared, fresh;
-                for (int s = 0; s < n; ++s) shared += (s ? " || " : "") + runOnce(*prog, a[2] == "1", nullptr);
+                for (int s = 0; s < n; ++s) shared += (s ? " || " : "") + strip(runOnce(*prog, mixed ? false : a[2] == "1", nullptr));
                 setDraws(a[4]);
                 for (int s = 0; s < n; ++s) {
                     std::string e2;
                     auto p2 = frontEnd(src, e2);
-                    fresh += (s ? " || " : "") + (p2 ? runOnce(*p2, a[2] == "1", nullptr) : e2);
+                    fresh += (s ? " || " : "") + (p2 ? strip(runOnce(*p2, mixed ? true : a[2] == "1", nullptr)) : e2);
                 }
                 out = (shared == fresh ? std::string("same ") : std::string("DIFFERENT ")) + shared + " ## " + fresh;
             }
